@@ -373,6 +373,25 @@ def _check_stem_visitor(ctx, cls: ClassInfo, fn: FuncInfo, neg, ci, stem):
               f"{'NOT ' if neg else ''}{'I' if ci else ''}LIKE with pattern shape {shape}", fn.loc)
 
 
+def _escape_helper(ctx, cls: ClassInfo, call: ast.Call, esc_vars):
+    """`self.<m>(.., <escape var>, ..)` -> (FuncInfo of m resolved through the MRO of cls, name of the
+    parameter that receives the escape variable), else None."""
+    f = call.func
+    if not (isinstance(f, ast.Attribute) and isinstance(f.value, ast.Name) and f.value.id == "self"):
+        return None
+    m = ctx.index.resolve_method(cls, f.attr)
+    if m is None or f.attr == "render_literal_value":
+        return None
+    params = [p for p in m.params if p != "self"]
+    for i, a in enumerate(call.args):
+        if isinstance(a, ast.Name) and a.id in esc_vars and i < len(params):
+            return m, params[i]
+    for k in call.keywords:
+        if k.arg and isinstance(k.value, ast.Name) and k.value.id in esc_vars and k.arg in params:
+            return m, k.arg
+    return None
+
+
 def _check_like_visitor(ctx, cls: ClassInfo, fn: FuncInfo, neg, ci):
     key = f"{cls.key}.{fn.name}"
     problems = []
@@ -432,6 +451,24 @@ def _check_like_visitor(ctx, cls: ClassInfo, fn: FuncInfo, neg, ci):
             if (call_name(c) or "").endswith("render_literal_value") and c.args \
                     and isinstance(c.args[0], ast.Name) and c.args[0].id in esc_vars:
                 rendered = True
+            # an extracted helper `self.h(escape)` whose return renders " ESCAPE " + render_literal_value(<its param>)
+            h = _escape_helper(ctx, cls, c, esc_vars)
+            if h is not None:
+                hfn, hparam = h
+                ctx.functions_analysed.add(hfn.key)
+                hconsts = [s for hr in returns_of(hfn.node) for s in str_constants(hr.value)]
+                if any("ESCAPE" in s.upper() for s in hconsts):
+                    has_kw = True
+                    for hc in calls_in(hfn.node):
+                        if (call_name(hc) or "").endswith("render_literal_value") and hc.args \
+                                and isinstance(hc.args[0], ast.Name) and hc.args[0].id == hparam:
+                            rendered = True
+                    memo = [d for d in hfn.decorators if "memoized" in d or d.split(".")[-1] in ("cache", "lru_cache")]
+                    if memo and any("memoized" in d for d in memo):
+                        problems.append(
+                            f"ESCAPE clause comes from `{hfn.name}`, which is decorated `@{memo[0]}`: that memoiser "
+                            "ignores the arguments, so the first escape character rendered by this compiler is "
+                            "reused for every later LIKE of the statement")
     if not esc_vars:
         problems.append("does not read binary.modifiers['escape']")
     if not has_kw:
@@ -555,3 +592,12 @@ R.mutant("benign-split-chain-into-statements", OPS,
          None)
 R.mutant("benign-logging", OPS,
          sub('        if escape is None:\n            escape = "/"\n', '        if escape is None:\n            escape = "/"\n        _dbg = len(other) if isinstance(other, str) else 0\n'), None)
+_ESC_INLINE = ('        ) + (\n            " ESCAPE " + self.render_literal_value(escape, sqltypes.STRINGTYPE)\n'
+               '            if escape is not None\n            else ""\n        )\n\n    def visit_not_like_op_binary')
+_ESC_HELPER = ('        ) + (self._like_escape_clause(escape) if escape is not None else "")\n\n'
+               '    %sdef _like_escape_clause(self, escape):\n'
+               '        return " ESCAPE " + self.render_literal_value(escape, sqltypes.STRINGTYPE)\n\n'
+               '    def visit_not_like_op_binary')
+R.mutant("benign-escape-clause-helper", COMP, sub(_ESC_INLINE, _ESC_HELPER % ""), None)
+R.mutant("r3-escape-clause-helper-memoized", COMP,
+         sub(_ESC_INLINE, _ESC_HELPER % "@util.memoized_instancemethod\n    "), "C08-R3")
